@@ -344,5 +344,10 @@ func (f FunctionCall) toObject(value Value) *object {
 // CallerLocation will return file location information (file:line:pos) where this function is being called.
 func (f FunctionCall) CallerLocation() string {
 	// see error.go for location()
-	return f.runtime.scope.outer.frame.location()
+	outer := f.runtime.scope.outer
+	if outer == nil {
+		// Called from Go (Value.Call, Otto.Call) with the runtime at rest: no script caller.
+		return frame{}.location()
+	}
+	return outer.frame.location()
 }
